@@ -30,7 +30,7 @@ ASSUMPTIONS = [
 SHARDS = {"quick": 8, "thorough": 16}
 TIMEOUT = {"quick": 600, "thorough": 3600}
 MIN_CASES = {"quick": 50_000, "thorough": 250_000}
-REQUIRED_COUNTERS = ["outbound_decoded", "inbound_deliveries_checked", "corruptions_rejected", "real_transport_teardowns", "real_transport_idle_teardowns"]
+REQUIRED_COUNTERS = ["outbound_decoded", "inbound_deliveries_checked", "corruptions_rejected", "real_transport_teardowns", "real_transport_idle_teardowns", "inbound_reads_over_64k"]
 
 OUT_LENGTHS = [0, 1, 2, 1023, 1024, 1025, 2047, 2048, 2049, 3071, 3072, 3073, 4096, 5000, 10240, 10241]
 OK_RESPONSE = b"HTTP/1.1 204 No Content\r\n\r\n"
@@ -285,6 +285,22 @@ async def run_inbound_small(ctx) -> None:
                     cuts = tuple(sorted(rng.sample(range(1, enc_len), rng.randint(2, 20))))
                 ctx.case("inl", k, trial, sample={"part": "inbound-large", "plaintext_len": n, "frame_sizes": sizes[:8], "n_cuts": len(cuts)}, kind="inl")
                 if not check_inbound_clean(ctx, factory, spy, a2c, pt, sizes, cuts, {**rp, "trial": trial}):
+                    break
+        # very large reads: asyncio hands over up to 256 KiB per recv, so one read may carry dozens of complete frames
+        for k in range(ctx.pick(8, 200)):
+            if not ctx.mine(k):
+                continue
+            rng = ctx.grng("C05.huge", k)
+            a2c, c2a = keys_for(rng)
+            n = rng.choice([66000, 70000, 131072, 200000, 262144, 300000])
+            pt = rng.randbytes(n)
+            sizes = rng.choice([[1024], [1024], [1000], [512, 1024], [rng.randint(200, 1024) for _ in range(5)]])
+            factory = lambda: SecureHomeKitProtocol(StubConnection(), a2c, c2a)  # noqa: E731
+            enc_len = len(b"".join(refsession.Encoder(a2c).frames(pt, sizes)))
+            for trial, cuts in enumerate([(), (65536,), (65553,), (65554,), (enc_len - 1,), tuple(sorted(rng.sample(range(1, enc_len), 2))), tuple(range(262144, enc_len, 262144))]):
+                ctx.case("inh", k, trial, sample={"part": "inbound-huge-reads", "plaintext_len": n, "frame_sizes": sizes[:8], "cuts": list(cuts)}, kind="inh")
+                ctx.count("inbound_reads_over_64k")
+                if not check_inbound_clean(ctx, factory, spy, a2c, pt, sizes, cuts, {"part": "inl", "k": k, "trial": trial}):
                     break
     finally:
         spy.remove()
